@@ -40,8 +40,10 @@ def check(ck):
         _null_and_variable(ck, repo)
         # a variable reaches a position only if its declared type fits it at every level (lists included): its value is handed on
         # unchanged, so `[Int]` let into `[Int!]!` delivers the null item the literal form refuses
-        from .c06 import _variable_usage_tables
+        from .c06 import _variable_usage_tables, usage_walk_terms
         _variable_usage_tables(ck, repo)
+        # ... and the rule judges every usage only if its collector reaches every fragment the operation spreads (5.8.5's walk)
+        usage_walk_terms(ck, repo)
     with ck.rule("R5"):
         _usage_coverage(ck, repo)
 
